@@ -770,7 +770,44 @@ func gen(r *vlib.R, n int, tier string, emit func(string)) {
 // witnessOps: the minimal shapes of the five findings fixed by /repo commit 4841eb0
 // (the exact validators must keep refusing them), always run first.
 func witnessOps() []string {
-	return append(foldSweep(), witnessOps0()...)
+	return append(append(foldSweep(), witnessOps0()...), authWitnessOps()...)
+}
+
+// authWitnessOps: the real Resolver.authority on the shapes of round 7 —
+// a zone whose whole NSEC3 chain uses more iterations than the validator hashes
+// with (nothing is proven: refused, never "insecure"), the parent's delegation
+// NSEC offered for a non-DS type at the cut, and the controls that must pass.
+func authWitnessOps() []string {
+	var out []string
+	z := parseZone("example", "1", "example:2,6,46,48,51;www.example:1,46;sub.example:2,46")
+	for _, iter := range []int{200, 1} {
+		z3 := &zone3{z: z, salt: []byte{0xaa, 0xbb}, iter: iter, opted: map[string]bool{}}
+		curZ3 = z3
+		ring := z3.ring()
+		curSet3 = ring
+		out = append(out, fmt.Sprintf("h new %s aabb %d -", z.String(), iter), "h set "+recs3Str(ring))
+		ap := z.apex
+		for _, c := range [][3]string{{"www.example", "1", "nx"}, {"www.example", "1", "nd"}, {"sub.example", "43", "nd"}, {"nope.example", "1", "nx"}, {"www.example", "28", "nd"}} {
+			q := parseName(c[0])
+			out = append(out, fmt.Sprintf("h auth %s %s %s %s good %s", ap, q, c[1], c[2], hashTable(q, ap)))
+		}
+		// one genuine record replayed on its own
+		curSet3 = ring[:1]
+		out = append(out, "h set "+recs3Str(ring[:1]))
+		q := parseName("www.example")
+		out = append(out, fmt.Sprintf("h auth %s %s 1 nx good %s", ap, q, hashTable(q, ap)))
+	}
+	out = append(out,
+		"z new example 1 example:2,6,46,47,48;sub.example:2,46,47;www.example:1,46,47",
+		"z set example|sub.example|1|2,6,46,47,48;sub.example|www.example|1|2,46,47;www.example|example|1|1,46,47",
+		"z auth example sub.example 15 nd good", // the parent's delegation NSEC does not speak for MX at the cut
+		"z auth example sub.example 43 nd good", // ... but for DS it does
+		"z auth example www.example 1 nx good",  // existing name
+		"z auth example nope.example 1 nx good", // proven
+		"z auth example www.example 28 nd good", // proven NODATA
+		"z auth example nope.example 1 nx nodsig",
+		"z auth example nope.example 1 nx insec")
+	return out
 }
 
 // foldSweep: RFC 4034 6.1 octet order, every octet against the octets a wrong
